@@ -17,8 +17,8 @@ import (
 )
 
 type c20SChart struct {
-	Name     string       `json:"name"`
-	Schema   string       `json:"schema,omitempty"` // "" none | required | invalid
+	Name     string                 `json:"name"`
+	Schema   string                 `json:"schema,omitempty"` // "" none | required | invalid
 	Required []string               `json:"required,omitempty"`
 	Values   map[string]interface{} `json:"values,omitempty"` // this chart's own values.yaml (overrides Defaults[name])
 	Subs     []*c20SChart           `json:"subs,omitempty"`
